@@ -17,7 +17,11 @@ PROP = {
                    "equal_range, erase (key / iterator / range), erase_if and operator== are functions of the multiset of pairs. The key-map "
                    "contract is discharged for the C01 hash-table model for every bucket description with SpecOK and every hash function "
                    "(using the C01 theorems; ResetKey proved here), and for a reference list map. The model is run against the real "
-                   "containers on every check."),
+                   "containers on every check."
+                   " Area Misc of the translator (tools/trspecs/Misc.py): ArrayBucket::pvMakeState / pvGetMemPoolIndex / pvGetFastCount / "
+                   "pvGetFastMemPoolIndex and the state / size arithmetic of AddBackCrt and RemoveBack (state +-1 with int promotion, first heap capacity, "
+                   "shrink rule) are TRANSLATED from the header text on every run and proved equal to the model (Proof/TrEqMisc2Bucket.lean; "
+                   "C08_state_byte_roundtrip_translated, C08_value_array_ops_translated)."),
     "level_note": ("Trusted: Lean kernel + 3 standard axioms, extractor, harness (g++, -fno-access-control). Modelled not verified: object layout "
                    "of the value-array blocks and of momo::Array, memory pools behind the value arrays (only 'allocation refused' is an "
                    "input), relocation of values by memcpy / move; iterator provenance is modelled as 'can move / cannot move'. The HT instance "
@@ -25,6 +29,8 @@ PROP = {
     "modules": ["Momo.Props.C08"],
     "theorems": [
         "Momo.MMap.C08_state_byte_roundtrip",
+        "Momo.MMap.C08_state_byte_roundtrip_translated",
+        "Momo.MMap.C08_value_array_ops_translated",
         "Momo.MMap.C08_value_array_refines",
         "Momo.MMap.C08_value_array_rep",
         "Momo.MMap.C08_mm_refines",
